@@ -309,6 +309,25 @@ def tmpl_shared(rng, nodes, lits):
     return [parent, a, b, ps, easy] + extra
 
 
+def tmpl_multi_logical(rng, nodes, lits):
+    """sh:not / sh:or / sh:and / sh:xone on a PROPERTY shape whose focus nodes have several values (the generator adds them):
+    the component's answer for one value must not cut short the look at the others"""
+    u = _uid(rng)
+    iri_nodes = [n for n in nodes if isinstance(n, URIRef)]
+    inner = new_shape(BNode("ml%s" % u) if rng.random() < 0.5 else EX["ML%s" % u], None)
+    inner["comps"].append(rng.choice([("nodekind", "NKIRI"), ("nodekind", "NKLiteral"), ("class", [rng.choice(CLASSES)]), ("in", rng.sample(iri_nodes + lits, min(2, len(iri_nodes + lits))))]))
+    other = new_shape(BNode("mo%s" % u), None)
+    other["comps"].append(("nodekind", rng.choice(["NKLiteral", "NKBlankNode", "NKIRI"])))
+    ps = new_shape(BNode("mp%s" % u), ("pred", rng.choice(PREDS[:2])))
+    kind = rng.choice(["not", "not", "or", "and", "xone"])
+    ps["comps"].append(("not", [inner["id"]]) if kind == "not" else (kind, [[inner["id"], other["id"]]]))
+    ps["sev"] = rng.choice([None, None, SH.Warning, SH.Info])
+    parent = new_shape(EX["MLP%s" % u], None)
+    parent["targets"]["nodes"] = rng.sample(iri_nodes, min(2, len(iri_nodes)))
+    parent["comps"].append(("property", [ps["id"]]))
+    return [parent, ps, inner, other]
+
+
 def add_templates(rng, shapes, nodes, lits, p=0.5):
     if rng.random() < p:
         shapes.extend(tmpl_custom(rng, nodes, lits))
